@@ -81,7 +81,7 @@ def _isnan(v):
 def _bound_sets():
   """(min, max, mmin, mmax) combos: definedness x weak orderings."""
   out = []
-  vals = [None, 1, 2, 3, 4]
+  vals = [None, 0, 1, 2, 3]  # 0: a limit that is falsy (truth tests on limits)
   for mn, mx, mmn, mmx in itertools.product(vals, repeat=4):
     if mn is None and mx is None:
       continue
@@ -493,6 +493,14 @@ def r8_identity(report, repo):
         diffs[fld] = it.equals(a, _make(it, cls, **ch))
       except InterpRaise as e:
         diffs[fld] = 'raises ' + e.kind
+    if cls == 'InRange':
+      # same stored limits, a value-changing type= : they decide differently
+      it.steps = 0
+      try:
+        diffs['type='] = it.equals(a, _make(it, cls, **dict(attrs,
+                                                            _type=_shift)))
+      except InterpRaise as e:
+        diffs['type='] = 'raises ' + e.kind
     ok = same is True and all(v is False for v in diffs.values())
     report.check(ok, rule, f.qualname, '__eq__', f.node,
                  '%s.__eq__ is true for equal limits and false when any of %s '
